@@ -13,11 +13,13 @@ using namespace ref;
 namespace eng {
 namespace {
 
-enum SigKind { S_NOCAL, S_AUTH_VALID, S_AUTH_EXPIRED, S_AUTH_FUTURE, S_AUTH_BADSIG, S_AUTH_UNKNOWN_CERT, S_PUB_IN_FILE, S_PUB_NOT_IN_FILE, S_INCONSISTENT, S_CAL_ONLY, S_AUTH_EDGE_EXPIRING, S_AUTH_EDGE_STARTING, S_AUTH_EC_GARBAGE, S__COUNT };
+enum SigKind { S_NOCAL, S_AUTH_VALID, S_AUTH_EXPIRED, S_AUTH_FUTURE, S_AUTH_BADSIG, S_AUTH_UNKNOWN_CERT, S_PUB_IN_FILE, S_PUB_NOT_IN_FILE, S_INCONSISTENT, S_CAL_ONLY, S_AUTH_EDGE_EXPIRING, S_AUTH_EDGE_STARTING, S_AUTH_EC_GARBAGE, S_AUTH_LEAP_EXPIRED, S_AUTH_LEAP_VALID, S__COUNT };
 // S_AUTH_EC_GARBAGE: the authentication record names a listed, valid certificate with an EC key and carries a signature value that is
 // not even an encoded ECDSA signature (the verification primitive reports an error, not a mismatch): never acceptable
 // the fixture certificate auth_edge is valid from EDGE_T0 to EDGE_T1: one signature is aggregated just before it expires and published just
 // after (valid at the aggregation time: acceptable), one is aggregated just before it becomes valid and published just after (KEY-03)
+// the fixture certificates auth_leap_a / auth_leap_b have validity edges on 29 February (a: 2016-02-29 .. 2020-02-29, expired at the
+// aggregation times of this world: KEY-03; b: 2020-02-29 .. 2024-02-29, valid: acceptable)
 static const uint64_t EDGE_T0 = 1599600000, EDGE_T1 = 1599650000;
 enum FileKind { F_HONEST, F_ROGUE_SIGNER, F_OTHER_EMAIL, F_BAD_SIGNATURE, F_HTTP_404, F_OTHER_HASHES, F_ONLY_OLD, F__COUNT };
 
@@ -48,7 +50,7 @@ struct TrustSim {
 		return cache[kind] = pubfile_build(kind);
 	}
 	std::string pubfile_build(int kind) {
-		std::vector<const Pki *> certs = {&pki("auth_valid"), &pki("auth_expired"), &pki("auth_future"), &pki("auth_edge"), &pki("auth_ec")};
+		std::vector<const Pki *> certs = {&pki("auth_valid"), &pki("auth_expired"), &pki("auth_future"), &pki("auth_edge"), &pki("auth_ec"), &pki("auth_leap_a"), &pki("auth_leap_b")};
 		std::vector<PubEntry> pubs = {{Pold, bw.world.cal.root(Pold)}, {P1, bw.world.cal.root(P1)}, {P2, bw.world.cal.root(P2)}};
 		uint64_t created = 1599999000;
 		switch (kind) {
@@ -132,6 +134,8 @@ struct TrustSim {
 				if (k == S_AUTH_UNKNOWN_CERT) top.add(auth_rec(p, root, pki("auth_valid"), false, true));
 				if (k == S_AUTH_EDGE_EXPIRING || k == S_AUTH_EDGE_STARTING) top.add(auth_rec(p, root, pki("auth_edge"), false, false));
 				if (k == S_AUTH_EC_GARBAGE) top.add(auth_rec_garbage(p, root, pki("auth_ec")));
+				if (k == S_AUTH_LEAP_EXPIRED) top.add(auth_rec(p, root, pki("auth_leap_a"), false, false));
+				if (k == S_AUTH_LEAP_VALID) top.add(auth_rec(p, root, pki("auth_leap_b"), false, false));
 			}
 			s.bytes = top.enc();
 			int res = KSI_Signature_parseWithPolicy(ctx, (const unsigned char *)s.bytes.data(), s.bytes.size(), KSI_VERIFICATION_POLICY_EMPTY, NULL, &s.sig);
@@ -227,7 +231,7 @@ struct TrustSim {
 		bool genuine = s.kind != S_INCONSISTENT;
 		bool has_pubrec = s.kind == S_PUB_IN_FILE || s.kind == S_PUB_NOT_IN_FILE;
 		// derivations of "the calendar root is bound to the anchor"
-		bool d_key = (s.kind == S_AUTH_VALID || s.kind == S_AUTH_EDGE_EXPIRING) && file_trusted; // listed certificate valid at the aggregation time
+		bool d_key = (s.kind == S_AUTH_VALID || s.kind == S_AUTH_EDGE_EXPIRING || s.kind == S_AUTH_LEAP_VALID) && file_trusted; // listed certificate valid at the aggregation time
 		// every trusted file kind lists (Pold, true root); only the honest one lists P1 and P2 truly
 		bool d_file = file_trusted && ((s.kind == S_PUB_IN_FILE && file_lists_true) || (ext_allowed && ext_honest && (file_lists_true || s.agg <= Pold)));
 		bool d_user = upk != 0 && up_true && up_time >= s.agg && ((has_pubrec && s.pub == up_time) || (ext_allowed && ext_honest));
@@ -264,13 +268,13 @@ struct TrustSim {
 			bool fam_ok = policy == 0 ? (fam == 4 || fam == 2 || fam == 1) : policy == 1 || policy == 2 ? (fam == 3 || fam == 2 || fam == 1) : policy == 3 ? (fam == 5 || fam == 2 || fam == 1) : true;
 			if (!fam_ok) K.fail("C04", "fail-with-undocumented-code", "policy-" + std::to_string(policy), "FAIL under policy %d with error code 0x%x outside the documented family", policy, ec);
 			// an unavailable / failing extender or publications file is inconclusive, never a contradiction
-			bool planted_contradiction = !genuine || upk == 3 || s.kind == S_AUTH_EXPIRED || s.kind == S_AUTH_FUTURE || s.kind == S_AUTH_EDGE_STARTING || s.kind == S_AUTH_BADSIG || s.kind == S_AUTH_EC_GARBAGE || fk == F_OTHER_HASHES ||
+			bool planted_contradiction = !genuine || upk == 3 || s.kind == S_AUTH_EXPIRED || s.kind == S_AUTH_LEAP_EXPIRED || s.kind == S_AUTH_FUTURE || s.kind == S_AUTH_EDGE_STARTING || s.kind == S_AUTH_BADSIG || s.kind == S_AUTH_EC_GARBAGE || fk == F_OTHER_HASHES ||
 				(ext_any && !bw.fault_fired && (e.behav == B_OTHER_INPUT || e.behav == B_ALTERED_RIGHT_LINK || e.behav == B_WRONG_AGG_TIME || e.behav == B_WRONG_PUB_TIME || e.behav == B_BAD_SHAPE || e.behav == B_EXTRA_LINKS || e.behav == B_NO_AGG_TIME));
 			if (!planted_contradiction && fam != 2 && fam != 1) K.fail("C04", "fail-without-contradicting-anchor", "policy-" + std::to_string(policy) + "/0x" + std::to_string(ec), "FAIL (0x%x) under policy %d although no anchor contradicts the signature (extender behaviour %s, fault %d, file kind %d)", ec, policy, behav_name(e.behav), e.fault, fk);
 		}
 		// clean contradictions must be FAIL
 		if (genuine && !bw.fault_fired && file_trusted && res == KSI_OK) {
-			if (policy == 0 && (s.kind == S_AUTH_EXPIRED || s.kind == S_AUTH_FUTURE || s.kind == S_AUTH_EDGE_STARTING) && !(rc == KSI_VER_RES_FAIL && ec == KSI_VER_ERR_KEY_3))
+			if (policy == 0 && (s.kind == S_AUTH_EXPIRED || s.kind == S_AUTH_LEAP_EXPIRED || s.kind == S_AUTH_FUTURE || s.kind == S_AUTH_EDGE_STARTING) && !(rc == KSI_VER_RES_FAIL && ec == KSI_VER_ERR_KEY_3))
 				K.fail("C04", "contradiction-not-reported", "KEY-03", "key-based verification of a signature whose certificate is not valid at the aggregation time gave rc=%d ec=0x%x instead of FAIL KEY-03", rc, ec);
 			if (policy == 0 && (s.kind == S_AUTH_BADSIG || s.kind == S_AUTH_EC_GARBAGE) && !(rc == KSI_VER_RES_FAIL && ec == KSI_VER_ERR_KEY_2))
 				K.fail("C04", "contradiction-not-reported", "KEY-02", "key-based verification of a signature with an altered PKI signature gave rc=%d ec=0x%x instead of FAIL KEY-02", rc, ec);
